@@ -422,7 +422,60 @@ let cmd_vtkread line =
          | ENotPolyhedron -> "ENotPolyhedron" | ENoCells -> "ENoCells" | ECorrupt -> "ECorrupt" | EDangling -> "EDangling" | ENoTypeArray -> "ENoTypeArray"))
      | Ok (ms, tys) -> Printf.printf "OK cells=%d types=%d\n" (List.length ms) (List.length tys))
 
-let commands : (string * (string -> unit)) list ref = ref [ ("vtkread", cmd_vtkread); ("output", cmd_output); ("params", cmd_params); ("vtk", cmd_vtk); ("population", cmd_population); ("replay", cmd_replay); ("forces", cmd_forces); ("geometry", cmd_geometry); ("valid", cmd_valid); ("cellcycle", cmd_cellcycle); ("kernel", cmd_kernel); ("grid", cmd_grid); ("integrate", cmd_integrate) ]
+(* ---------------------------------------------------------------- C06/C07 contact phase (default contact model) *)
+let cmd_contact line =
+  let t = Array.of_list (toks line) in
+  let pos = ref 0 in
+  let next () = let s = t.(!pos) in incr pos; s in
+  let ni () = int_of_string (next ()) in
+  let nf () = f_of_s (next ()) in
+  let nv () = let x = nf () in let y = nf () in let z = nf () in { vx = x; vy = y; vz = z } in
+  let lmin = nf () in let adh = nf () in let rep = nf () in let c45 = nf () in let c90 = nf () in
+  let nc = ni () in
+  let cells = List.init nc (fun _ ->
+    ignore (next ());
+    let id = ni () in let local = ni () in let ty = ni () in let mc = nf () in
+    let nn = ni () in
+    let nodes = List.init nn (fun _ ->
+      let used = ni () in let p = nv () in let nrm = nv () in let curv = nf () in let frc = nv () in
+      { cn_used = (used <> 0); cn_pos = p; cn_normal = nrm; cn_curv = curv; cn_force = frc; cn_cpl = None; cn_sqd = Float64.of_float 0.0 }) in
+    let nfc = ni () in
+    let faces = List.init nfc (fun _ ->
+      let a = ni () in let b = ni () in let c = ni () in let nrm = nv () in let area = nf () in let rp = nf () in let _adh = nf () in
+      { cf_n1 = int_to_nat a; cf_n2 = int_to_nat b; cf_n3 = int_to_nat c; cf_normal = nrm; cf_area = area; cf_rep = rp }) in
+    { cc_id = int_to_nat id; cc_local = int_to_nat local; cc_type = int_to_nat ty; cc_maxcurv = mc; cc_nodes = nodes; cc_faces = faces }) in
+  let dmax = Float64.of_float Stdlib.max_float and inf = Float64.of_float Stdlib.infinity in
+  let b = Buffer.create 65536 in
+  let pv v = Buffer.add_string b (Printf.sprintf " %s %s %s" (s_of_f v.vx) (s_of_f v.vy) (s_of_f v.vz)) in
+  let dump tag st =
+    Buffer.add_string b (Printf.sprintf "%s %d" tag (List.length st));
+    List.iter (fun c ->
+      Buffer.add_string b (Printf.sprintf " C %d" (List.length c.cc_nodes));
+      List.iter (fun n -> pv n.cn_pos; pv n.cn_force;
+        (match n.cn_cpl with
+         | Some (c2, n2) when n.cn_used -> Buffer.add_string b (Printf.sprintf " %d %d %s" (nat_to_int c2) (nat_to_int n2) (s_of_f n.cn_sqd))
+         | _ -> Buffer.add_string b (Printf.sprintf " - - %s" (if n.cn_used then s_of_f n.cn_sqd else "-")))) c.cc_nodes) st in
+  (match ct_phase_f dmax inf c45 c90 lmin adh rep cells with
+   | None -> Buffer.add_string b "GRID OOB # OUT OOB"
+   | Some (st, store) ->
+     (match ct_prepare_f dmax inf lmin adh rep cells with
+      | Some p ->
+        let g = p.p_grid in
+        let ((nx, ny), nz) = g.d_nb in let ((lx, ly), lz) = g.d_lo in
+        Buffer.add_string b (Printf.sprintf "GRID %d %d %d %s %s %s %s %d |" (z_to_int nx) (z_to_int ny) (z_to_int nz) (s_of_f lx) (s_of_f ly) (s_of_f lz) (s_of_f g.d_s) (List.length store))
+      | None -> Buffer.add_string b "GRID ? |");
+     List.iteri (fun v l -> if l <> [] then begin
+       Buffer.add_string b (Printf.sprintf " %d:" v);
+       List.iter (fun i -> Buffer.add_string b (Printf.sprintf "%d," (nat_to_int i))) l end) store;
+     Buffer.add_string b " # ";
+     dump "OUT" st);
+  Buffer.add_string b " # ";
+  (match ct_all_pairs_f dmax inf c45 c90 lmin adh rep cells with
+   | None -> Buffer.add_string b "ALL NONE"
+   | Some st -> dump "ALL" st);
+  print_endline (Buffer.contents b)
+
+let commands : (string * (string -> unit)) list ref = ref [ ("contact", cmd_contact); ("vtkread", cmd_vtkread); ("output", cmd_output); ("params", cmd_params); ("vtk", cmd_vtk); ("population", cmd_population); ("replay", cmd_replay); ("forces", cmd_forces); ("geometry", cmd_geometry); ("valid", cmd_valid); ("cellcycle", cmd_cellcycle); ("kernel", cmd_kernel); ("grid", cmd_grid); ("integrate", cmd_integrate) ]
 
 let () =
   let cmd = Sys.argv.(1) in
